@@ -24,4 +24,4 @@ prop("C01", ["TAB-1", "TAB-3", "TAB-4", "ENC-1", "ENC-2", "ENC-3", "ENC-4", "ENC
 NOT_APPLICABLE = {}
 
 prop("C14", ["CAS-1", "CAS-4"], "x", "y")
-prop("C06", ["CAS-6"], "x", "y")
+prop("C06", ["CAS-1", "CAS-5", "CAS-6", "CAS-3"], "x", "y")
